@@ -6,7 +6,7 @@ from checks.outparse import parse_raws
 
 ID = "C13"
 LEAN_MODULES = ["Econf.Props.C13"]
-THEOREMS = []
+THEOREMS = ["Econf.C13_section_codes", "Econf.C13_section_line", "Econf.C13_nodelim_line", "Econf.C13_first_error", "Econf.C13_error_range"]
 RULE = ("conventional documents with one injected malformed line of each kind (no closing bracket, text after bracket, empty section "
         "name, key and text without delimiter) at every kind of position, followed by arbitrary lines; alone and as a member of a "
         "layered tree; plus missing files and the message of every code -1..30; distinct by (file content, kind, position)")
